@@ -18,6 +18,10 @@ def run(tier, seed):
     res = {"violations": [], "broken": [], "coverage": {}}
     tie = mu_common.tie(res, "muwait_replay", "MuWaitModel", [("muwait_mix", {"VRT_MODE": 0, "VRT_CV": 0}, 200, 2000),
                                                               ("muwait_mix", {"VRT_MODE": 1, "VRT_CV": 0}, 200, 2000)], tier, seed)
+    tie2 = mu_common.tie(res, "cv_replay", "CvModel", [("cv_mix", {"VRT_MODE": 0}, 150, 1500), ("cv_mix", {"VRT_MODE": 3}, 100, 1000)], tier, seed)
+    for k in ("traces_validated_against_impl", "lockstep_model_steps"):
+        tie[k] = tie.get(k, 0) + tie2.get(k, 0)
+    tie["model_sites_hit_cv"] = tie2.get("model_sites_hit", {})
     specs = [("cv_mix", {"VRT_MODE": 0}, 2000, 40000), ("cv_mix", {"VRT_MODE": 4}, 1500, 30000), ("muwait_mix", {"VRT_MODE": 0}, 2000, 40000),
              ("muwait_mix", {"VRT_MODE": 1}, 1000, 20000), ("muwait_mix", {"VRT_MODE": 0, "VRT_FINE": 600}, 1500, 30000), ("cancel_mix", {}, 3000, 60000)]
     cov = scen_common.run_scenarios(res, specs, tier, seed, {"C05", "C01"} | scen_common.LIVENESS | scen_common.CRASHES)
